@@ -39,7 +39,7 @@ ASSUMPTIONS = [
     "PaddingError is an accepted outcome only when the required padding is not a multiple of the nop size",
     "the clause about alignment of patch-added blocks is judged only through the module-level alignment check (upstream pins that .align inside an interval is recorded, not padded; see known findings)",
 ]
-BUDGET = {"quick": (9000, 40), "thorough": (300000, 480)}
+BUDGET = {"quick": (18000, 40), "thorough": (300000, 480)}
 REQUIRED_COUNTERS = ["noop_applies", "split_join_roundtrips",
                      "alignment_checks"]
 
